@@ -662,6 +662,14 @@ func longLivedTypes(p *Program) map[string]bool {
 		}
 	}
 	sc := p.Main.Types.Scope()
+	// every exported struct type is something the user holds on to (a batch, an iterator, a handle)
+	for _, nm := range sc.Names() {
+		if tn, ok := sc.Lookup(nm).(*types.TypeName); ok && tn.Exported() {
+			if n, ok := tn.Type().(*types.Named); ok {
+				visit(n, 0)
+			}
+		}
+	}
 	for _, nm := range sc.Names() {
 		if v, ok := sc.Lookup(nm).(*types.Var); ok {
 			visit(v.Type(), 0)
